@@ -39,6 +39,12 @@ def gen_param_value(r, family, depth=0):
         # mappings with integer keys (YAML / in-memory configs): homogeneous keys, natural order != string order
         ks = r.sample([2, 10, -1, 100, 7, 33, 0], r.choice([2, 3, 4]))
         return {'$intkeys': [[k_, gen_param_value(r, r.choice(['int', 'str']))] for k_ in ks]}
+    if family == 'long':
+        # long values whose representations differ only somewhere in the middle (equal length, equal head and tail)
+        m = r.choice([350, -1, -2, -3])
+        if r.random() < 0.5:
+            return list(range(350)) + [m] + list(range(351, 700))
+        return 'a' * 1300 + 'pqrs'[m % 4] + 'b' * 1300
     if family == 'placeholder':
         return r.choice(['{VA}/in', 'pre_{VB}', '{VA}{VB}', 'x{VA}y{VA}', '{VB}/{VA}/z', '{VC}'])
     if family == 'obj':
@@ -220,6 +226,8 @@ def gen_world(r, knobs=None):
             params = []
             for j in range(r.randint(0, k['max_params'])):
                 fam = r.choice(k.get('families') or FAMILIES)
+                if not k.get('families') and r.random() < 0.03:
+                    fam = 'long'
                 pool = distinct_pool(r, fam, 3)
                 if len(pool) < 2:
                     fam = 'int'
